@@ -85,6 +85,9 @@ func (c16) Run(c *fw.Ctx) {
 	if strings.HasPrefix(fault, "textout-") {
 		textOut = "file"
 	}
+	if fault == "glob-many-files" && cmdName == "copy" {
+		textOut = []string{"file", "-"}[c.Index%2]
+	}
 
 	dir := c.TmpDir()
 	// make the scratch path traversable for the uid-dropped child
@@ -522,6 +525,43 @@ func (c16) Run(c *fw.Ctx) {
 			if !fileExists(filepath.Join(destBase, item, filepath.Base(m))) {
 				c.Violationf("silent-success:copy-effect", det, "glob copy exited 0 but %s was not copied", filepath.Base(m))
 				return
+			}
+		}
+		// each file's listing arrives as one block: the records under a file's now: line are that file's (for the files
+		// whose destination did not exist: exactly its known points in the window)
+		if textOut != "" {
+			for fi, nl := range out.Nows {
+				name := filepath.Base(nl.Name)
+				if !strings.HasPrefix(name, "g") {
+					continue // a.wsp had a destination before
+				}
+				end := len(out.Points)
+				if fi+1 < len(out.Nows) {
+					end = out.Nows[fi+1].PointsFrom
+				}
+				uu := until
+				if window == "default" {
+					uu = nl.Now
+				}
+				tsl, _, err := fetchArchives(filepath.Join(srcBase, item, name), sel, from, uu, nl.Now)
+				if err != nil {
+					continue
+				}
+				want := 0
+				for _, ts := range tsl {
+					if ts != nil {
+						for _, v := range ts.Values() {
+							if !math.IsNaN(float64(v)) {
+								want++
+							}
+						}
+					}
+				}
+				if got := end - nl.PointsFrom; got != want {
+					det["file"], det["records_under_its_now_line"], det["known_points_in_window"] = name, got, want
+					c.Violationf("silent-success:output-incomplete", det, "glob copy: %d records follow the now: line of %s, which has %d known points in the window (listings of different files are mixed up or incomplete)", got, name, want)
+					return
+				}
 			}
 		}
 		c.Count("success_effect_checked", 1)
